@@ -6,6 +6,10 @@ ALL = ["C%02d" % i for i in range(1, 21)]
 
 # id -> (technique, level text, level note, design ref)
 CLAIMED = {
+ "C03": ("proptest + exhaustive small-scope grid against a reference realisability predicate (both directions)",
+         "Generated-input search with a two-sided oracle: SemanticState::build returns Ok iff the reference model (written from the property statement) says the single-type description is realisable, and on Ok the resolved size/alignment equal the model's. An exhaustive grid (<=2 fields x address x size x align x packed x vftable x width) plus random descriptions with up to 8 fields. Exploration; exhaustive only inside the stated grid.",
+         "Trusts the reference model in harness/src/refmodel.rs (default-alignment rule pinned from the code, see DESIGN.md §2.2).",
+         "DESIGN.md §4 C03"),
  "C18": ("proptest round-trip print->parse, parse->print->parse, bad-token negative; tape-driven generators over the full grammar",
          "Generated-input search: abstract modules over the whole grammar printed by an independent randomised printer must parse back to the same AST; mutated texts that parse must survive canonical re-printing; stray tokens must be rejected at a position not after the token. Exploration, no absence claim.",
          "Trusts the harness's printer (gast.rs) and the mirror AST conversion; syn/proc-macro2 lexing is part of the system under test.",
